@@ -119,6 +119,12 @@ func init() {
 		args := sliceArgs(a[2])
 		elems := []Val{a[1]}
 		for _, x := range args {
+			// go-ethereum's packer dereferences pointer arguments (*big.Int): a nil one panics
+			if iv, ok := x.(IfaceV); ok {
+				if p, isPtr := iv.V.(Ptr); isPtr && p == nil {
+					it.tpanic("abi.Pack: nil pointer argument (reflect: call of reflect.Value.Type on zero Value)")
+				}
+			}
 			elems = append(elems, copyDeep(x))
 		}
 		return Tuple{&StrV{Boxed: &SliceV{Arr: &elems, Len: len(elems), Cap: len(elems)}, BoxK: "abicall"}, IfaceV{}}
